@@ -195,7 +195,7 @@ package keeper
 // Draw more debt on an open borrow (C08): after accrual, principal + accrued interest + the new loan passed the LTV gate
 // against the pledged collateral; the pool held the coins.
 //@ func (k Keeper) DrawAsset
-//@   property C08
+//@   property C08, C12, C14
 //@   let b0 = k.GetBorrow(ctx, borrowID).0
 //@   let pair = k.GetLendPair(ctx, b0.PairID).0
 //@   let l0 = k.GetLend(ctx, b0.LendingID).0
@@ -207,6 +207,8 @@ package keeper
 //@   letpost b1 = k.GetBorrow(ctx, borrowID).0
 //@   ensures #c08-ltv-after-draw: err == nil ==> k.CalculateCollateralizationRatio(ctx, b1.AmountIn.Amount, ain, b1.AmountOut.Amount + trunc(b1.InterestAccumulated), aout).1 == nil && k.CalculateCollateralizationRatio(ctx, b1.AmountIn.Amount, ain, b1.AmountOut.Amount + trunc(b1.InterestAccumulated), aout).0 <= ltv
 //@   ensures #c08-draw-not-liquidated: err == nil ==> !b0.IsLiquidated
+//@   ensures [C12] #c12-owner: err == nil ==> old(k.GetBorrow(ctx, borrowID).1 && k.GetLend(ctx, k.GetBorrow(ctx, borrowID).0.LendingID).1 && borrowerAddr == k.GetLend(ctx, k.GetBorrow(ctx, borrowID).0.LendingID).0.Owner)
+//@   fails_if [C14] #c14-breaker: k.GetBorrow(ctx, borrowID).1 && k.GetLend(ctx, k.GetBorrow(ctx, borrowID).0.LendingID).1 && breakerOn(k, ctx, k.GetLend(ctx, k.GetBorrow(ctx, borrowID).0.LendingID).0.AppID)
 
 // Interest accrual of one borrow position (C08): principal, pledged collateral and identity of the position, every other
 // borrow, every lend position and the published pool totals are untouched - only accrued interest and its tracker move.
@@ -228,7 +230,7 @@ package keeper
 // borrowed total of the borrowed asset by the same amount (pool total minus this position's principal does not move); never
 // on a liquidated position. (A payment equal to the whole debt goes through CloseBorrow, not covered by this contract.)
 //@ func (k Keeper) RepayAsset
-//@   property C08
+//@   property C08, C12, C14
 //@   prune
 //@   let b0 = k.GetBorrow(ctx, borrowID).0
 //@   let bf0 = k.GetBorrow(ctx, borrowID).1
@@ -245,12 +247,14 @@ package keeper
 //@   ensures #c08-principal-never-grows: err == nil ==> b1.AmountOut.Amount <= b0.AmountOut.Amount && b1.AmountOut.Amount >= 0
 //@   ensures #c08-payer-pays-exactly: err == nil ==> bal(addr(borrowerAddr), payment.Denom) == old(bal(addr(borrowerAddr), payment.Denom)) - payment.Amount
 //@   ensures #c08-repay-not-liquidated: err == nil ==> !b0.IsLiquidated
+//@   ensures [C12] #c12-owner: err == nil ==> old(k.GetBorrow(ctx, borrowID).1 && k.GetLend(ctx, k.GetBorrow(ctx, borrowID).0.LendingID).1 && borrowerAddr == k.GetLend(ctx, k.GetBorrow(ctx, borrowID).0.LendingID).0.Owner)
+//@   fails_if [C14] #c14-breaker: k.GetBorrow(ctx, borrowID).1 && k.GetLend(ctx, k.GetBorrow(ctx, borrowID).0.LendingID).1 && breakerOn(k, ctx, k.GetLend(ctx, k.GetBorrow(ctx, borrowID).0.LendingID).0.AppID)
 
 // Closing a borrow (C08): the whole principal leaves the published borrowed total, the pledged collateral goes back into
 // the lend position's available amount, the borrower pays principal plus accrued interest (truncated) and receives the
 // pledged cTokens back, and the borrow position is removed.
 //@ func (k Keeper) CloseBorrow
-//@   property C08
+//@   property C08, C12, C14
 //@   let b0 = k.GetBorrow(ctx, borrowID).0
 //@   let bf0 = k.GetBorrow(ctx, borrowID).1
 //@   let pair = k.GetLendPair(ctx, b0.PairID).0
@@ -265,3 +269,5 @@ package keeper
 //@   ensures #c08-close-returns-pledge-to-position: err == nil ==> l1.AvailableToBorrow == l0.AvailableToBorrow + b0.AmountIn.Amount
 //@   ensures #c08-close-removes-borrow: err == nil ==> !k.GetBorrow(ctx, borrowID).1
 //@   ensures #c08-close-not-liquidated: err == nil ==> !b0.IsLiquidated
+//@   ensures [C12] #c12-owner: err == nil ==> old(k.GetBorrow(ctx, borrowID).1 && k.GetLend(ctx, k.GetBorrow(ctx, borrowID).0.LendingID).1 && borrowerAddr == k.GetLend(ctx, k.GetBorrow(ctx, borrowID).0.LendingID).0.Owner)
+//@   fails_if [C14] #c14-breaker: k.GetBorrow(ctx, borrowID).1 && k.GetLend(ctx, k.GetBorrow(ctx, borrowID).0.LendingID).1 && breakerOn(k, ctx, k.GetLend(ctx, k.GetBorrow(ctx, borrowID).0.LendingID).0.AppID)
